@@ -402,9 +402,9 @@ pub fn gen_case(rng: &mut Rng, index: usize) -> (&'static str, Map) {
     if map.is_empty() {
         put(&mut map, rand_cp(rng, Plane::Bmp), rand_gid(rng));
     }
-    if kind != "delta-extremes" && rng.bool() {
+    if kind != "delta-extremes" && rng.chance(1, 4) {
         avoid_positive_wrap(&mut map);
-    } else if kind == "delta-extremes" && rng.chance(1, 3) {
+    } else if kind == "delta-extremes" && rng.chance(1, 8) {
         avoid_positive_wrap(&mut map);
     }
     fit_main_region(&mut map);
